@@ -26,6 +26,8 @@ def run(repo: Repo, tier, rep: Report):
     def addp(rule, construct, key, msg, line=0):
         rep.finding(rule, construct, key, msg, line=line)
     check_purity(repo, addp, only={"time_slice"})
+    from sa.query_check import check_enumeration_dependency
+    check_enumeration_dependency(repo, rep, common.enumeration_users(repo, ['time_slice']))
     rep.assume(*common.CTOR_ASSUMPTIONS)
     rep.assume("'slice of a slice = slice by the intersection' and 'H is well formed' follow from exact clipping plus C01-C05 on H; "
                "they are not separately checked")
